@@ -627,6 +627,8 @@ pub(crate) fn hash_to_point(string: &[u8], n: usize) -> Polynomial<Felt> {
     let mut hasher = Shake256::default();
     hasher.update(string);
     let mut reader = hasher.finalize_xof();
+    #[cfg(falcon_rust_verif)]
+    let mut reader = crate::verif_hooks::XofTap::wrap(reader);
 
     let mut coefficients: Vec<Felt> = vec![];
     while coefficients.len() != n {
